@@ -101,7 +101,8 @@ def case(spec, log):
                 n = op[1]
                 rid = run_no
                 poison = op[2] if len(op) > 2 else []
-                inputs = [[rid, i, (i in poison)] for i in range(n)]
+                linger = op[4] if len(op) > 4 else []
+                inputs = [[rid, i, ('linger' if i in linger else (i in poison))] for i in range(n)]
                 live_at_start = sum(1 for w in p.workers if w.is_alive())
                 r = bounded('run', lambda: p.run(iter(inputs), worker_callback=cb, worker_extra_pending_inputs=op[3] if len(op) > 3 else 0), 90)
                 if r is HANG:
@@ -192,7 +193,7 @@ def gen_history(r):
         if x < 0.40 and not stuck:
             n = r.randint(0, 14)
             poison = sorted(set(r.randrange(max(1, n)) for _ in range(r.choice([0, 0, 0, 1]))))
-            ops.append(['run', n, poison, r.randint(0, 2)])
+            ops.append(['run', n, poison, r.randint(0, 2)] + ([poison] if poison and r.random() < 0.4 else []))
         elif x < 0.50:
             ops.append(['add', r.choice(KINDS)] + (['rejected'] if r.random() < 0.4 else []))
         elif x < 0.58:
@@ -276,7 +277,7 @@ def judge(chk, spec, res):
         if e.get('ev') == 'restart' and e['outcome'] not in ('ok',) and not has_stuck and not e['outcome'].startswith('raised:RuntimeError'):
             probs.append('restart_workers-%s' % e['outcome'])
     if probs:
-        mech = 'stuck-worker' if has_stuck else ('after-kill' if any(o[0] == 'kill' for o in spec['ops']) else 'plain')
+        mech = 'stuck-worker' if has_stuck else 'lingering-child' if any(o[0] == 'run' and len(o) > 4 and o[4] for o in spec['ops']) else ('after-kill' if any(o[0] == 'kill' for o in spec['ops']) else 'plain')
         chk.violation('%s:%s:%s' % (probs[0], mech, spec['ops'][-1][1]),
                       'history %s (close_timeout=%s force=%s): %s; census %s' % (short(spec['ops'], 300), spec['close_timeout'], spec['force'], ', '.join(probs), short(cen, 300)),
                       {'spec': spec, 'census': cen, 'runs': [e for e in evs if e.get('ev') == 'run'], 'left': left, 'stderr': res['stderr'][-300:]})
@@ -287,10 +288,19 @@ def judge(chk, spec, res):
 def run(tier):
     thorough = tier == 'thorough'
     chk = Check('C09', 'exploration', tier,
-                'seeded histories (<= ~8 operations) over {add_worker(thread/process/remote), add_worker with refused registration, attach, run(n inputs, poison, extra pending), restart_workers, SIGKILL a worker, stuck worker, '
+                'seeded histories (<= ~8 operations) over {add_worker(thread/process/remote), add_worker with refused registration, attach, run(n inputs, poison, extra pending), restart_workers, SIGKILL a worker, stuck worker, worker that dies of its input while its child process lingers, '
                 'leave by __exit__ / __exit__ with exception / close / terminate} x close_timeout {0.2, 1} x force {None, True}, each in its own session; distinct non-trivial = distinct histories')
     r = rng('c09')
     jobs = [gen_history(r) for _ in range(400 if thorough else 90)]
+    # a worker that dies of its input while its child process lingers (a non-daemon thread left behind by the target)
+    for kinds in (['PROCESS'], ['REMOTE'], ['PROCESS', 'REMOTE', 'THREAD'], ['PROCESS', 'PROCESS']):
+        for leave in ('exit', 'close', 'terminate', 'exit-exc'):
+            for tail in ([], [['run', 3, [], 0]], [['restart'], ['run', 4, [1], 1, [1]]]):
+                if len(jobs) % 3 and not thorough:
+                    jobs.append(None)
+                    continue
+                jobs.append(dict(ops=[['add', k] for k in kinds] + [['run', 5, [2], 0, [2]]] + tail + [['leave', leave]], close_timeout=r.choice([0.2, 1]), force=r.choice([None, True]) if 'THREAD' not in kinds else None))
+    jobs = [j for j in jobs if j]
     wd = workdir('c09')
 
     def one(ij):
